@@ -182,13 +182,15 @@ ExactTarget(r, bs) ==
            [] op = 255 /\ bs[k + 2] \in {37, 21} /\ arch = "x64" ->        \* jmp/call qword [rip + disp32] -> address table
                 SlotHolds(WAdd(EndOfInst(r), WSignedFromBytes(Sub(bs, k + 2, 4))), A)
            [] OTHER -> FALSE
-    [] r.kind = "absmem" ->       \* mov ecx, [mem]
+    [] r.kind = "absmem" ->       \* form 0: mov ecx,[m] (8B /1)   1: mov dword [m],imm32 (C7 /0)   2: add byte [m],imm8 (80 /0)
          LET has67 == bs[1] = 103
              k == IF has67 \/ (arch = "x64" /\ IsRex(bs[1])) THEN 1 ELSE 0
-         IN /\ bs[k + 1] = 139
-            /\ CASE bs[k + 2] = 13 /\ arch = "x64" -> WEq(WAdd(EndOfInst(r), WSignedFromBytes(Sub(bs, k + 2, 4))), A)    \* [rip + disp32]
-                 [] bs[k + 2] = 13 /\ arch = "x86" -> WEq(WFromBytes(Sub(bs, k + 2, 4)), A)                                \* [disp32]
-                 [] bs[k + 2] = 12 /\ bs[k + 3] = 37 ->                                                                    \* [sib: disp32]
+             opc == CASE r.form = 0 -> 139 [] r.form = 1 -> 199 [] OTHER -> 128
+             regf == IF r.form = 0 THEN 8 ELSE 0             \* ModRM.reg << 3
+         IN /\ bs[k + 1] = opc
+            /\ CASE bs[k + 2] = regf + 5 /\ arch = "x64" -> WEq(WAdd(EndOfInst(r), WSignedFromBytes(Sub(bs, k + 2, 4))), A)    \* [rip + disp32]
+                 [] bs[k + 2] = regf + 5 /\ arch = "x86" -> WEq(WFromBytes(Sub(bs, k + 2, 4)), A)                                \* [disp32]
+                 [] bs[k + 2] = regf + 4 /\ bs[k + 3] = 37 ->                                                                    \* [sib: disp32]
                       IF has67 THEN WEq(WFromBytes(Sub(bs, k + 3, 4)), A) ELSE WEq(WSignedFromBytes(Sub(bs, k + 3, 4)), A)
                  [] OTHER -> FALSE
     [] OTHER -> FALSE
